@@ -202,6 +202,8 @@ def run(ck, tier):
     F = factsmod.Facts("ws")
     from . import influence as _infl
     _infl.run(ck, F, 'C04')
+    from . import mustpass as _mp
+    _mp.run(ck, F, 'C04')
     run_agreement(ck, F)
     run_tracker(ck, F)
     run_codec(ck, F)
